@@ -1630,8 +1630,22 @@ fn generate_expression(
             context,
         )),
         ir::Expression::ConstantVariable(id) => {
-            let def = &context.module.cbuffer_registry[id.0.0 as usize].members[id.1 as usize];
-            ast::Expression::Identifier(ast::ScopedIdentifier::trivial(&def.name))
+            let cbuffer = &context.module.cbuffer_registry[id.0.0 as usize];
+            let def = &cbuffer.members[id.1 as usize];
+            // The members are declared in the namespace that contains the constant buffer
+            let mut segments = Vec::from([def.name.to_string()]);
+            let mut namespace = cbuffer.namespace;
+            while let Some(current) = namespace {
+                let name = context
+                    .name_map
+                    .get_name_leaf(NameSymbol::Namespace(current));
+                segments.insert(0, name.to_string());
+                namespace = context
+                    .module
+                    .namespace_registry
+                    .get_namespace_parent(current);
+            }
+            ast::Expression::Identifier(scoped_name_to_identifier(ScopedName(segments), context))
         }
         ir::Expression::EnumValue(id) => ast::Expression::Identifier(scoped_name_to_identifier(
             context.get_enum_value_name_full(*id)?,
